@@ -360,6 +360,16 @@ func checkC07(c *Ctx) {
 	c.checkPair("PAIR", map[string]bool{"RemoveEdges": true, "resolveRecur": true, "AddBipartition": true})
 	c.Decides("RESOLVE-GUARD: resolveRecur creates a node per round exactly while the current node has more than three neighbours")
 	c.resolveGuard("RESOLVE-GUARD")
+	c.Decides("NO-BREAK: the loop of RemoveEdges over the branches to contract is not left by a break: a candidate that is skipped (tip branch, root branch) does not hide the candidates after it")
+	if fi := c.Func("tree", "Tree", "RemoveEdges"); fi != nil {
+		c.noBreakLoops("NO-BREAK", fi, "contracts exactly the non-root inner branches selected", "goes through the branches to contract")
+	}
+	c.Floor("NO-BREAK", 1)
+	c.Decides("CMD-APPLIES: in the collapse and resolve commands every tree written inside the loop over the input trees has passed the Collapse*/Resolve call (no branch writes the tree back without it)")
+	for _, fo := range [][2]string{{"cmd/collapsebrlen.go", "CollapseShortBranches"}, {"cmd/collapsedepth.go", "CollapseTopoDepth"}, {"cmd/collapsesupport.go", "CollapseLowSupport"}, {"cmd/resolve.go", "Resolve"}} {
+		c.cmdApplies("CMD-APPLIES", fo[0], []string{fo[1]}, "contracts exactly the non-root inner branches selected")
+	}
+	c.Floor("CMD-APPLIES", 4)
 	c.Floor("RESOLVE-GUARD", 1)
 	c.Decides("OPTVAR-LOOP: no command overwrites the storage of one of its options, inside its loop over the input trees, with a value computed from the current tree (a threshold capped for one tree would then be used, capped, for every tree after it)")
 	nl, _ := c.optVarLoop("OPTVAR-LOOP", "contracts exactly the branches meeting the criterion")
